@@ -251,8 +251,12 @@ func propC07(c *Ctx, r *Report) {
 	// R5 multiply before divide, overflow rejected
 	r.rule("C07-R5/mul-then-div", 1, "result = Div(Mul(amount, source), destination) with overflow test")
 	{
-		muls := findCalls(cv, "math/big.Int.Mul")
-		divs := findCalls(cv, "math/big.Int.Div")
+		muls := c.findCallsFam(cv, "math/big.Int.Mul") // in Convert or a helper split off from it
+		divs := c.findCallsFam(cv, "math/big.Int.Div")
+		body := cv
+		if len(muls) == 1 && len(divs) == 1 && muls[0].Parent() == divs[0].Parent() {
+			body = muls[0].Parent()
+		}
 		var bad []string
 		if len(muls) != 1 || len(divs) != 1 {
 			bad = append(bad, fmt.Sprintf("%d Mul and %d Div calls", len(muls), len(divs)))
@@ -303,31 +307,37 @@ func propC07(c *Ctx, r *Report) {
 			}
 			// every successful return is that quotient: no shortcut hands back the amount (or anything else) without the
 			// rate selection and the division - e.g. an "equal rates" fast path would skip min/max with the averages
-			allInstrs(cv, func(ins ssa.Instruction) {
-				ret, ok := ins.(*ssa.Return)
-				if !ok || len(ret.Results) != 2 {
-					return
-				}
-				if !isNilConst(resolveSpill(ret.Results[1])) {
-					return
-				}
-				// the quotient is the Div call's result, or the object Div stored it in (its receiver) once Div has run
-				recv := unwrap(div.Call.Args[0])
-				if !sliceHas(resolveSpill(ret.Results[0]), func(v ssa.Value) bool {
-					return v == ssa.Value(div) || (unwrap(v) == recv && instrDominates(div, ret))
-				}) {
-					bad = append(bad, "the successful return at "+c.ipos(ret)+" does not return the quotient")
-				}
-			})
+			retFns := []*ssa.Function{cv}
+			if body != cv {
+				retFns = append(retFns, body)
+			}
+			for _, rf := range retFns {
+				allInstrs(rf, func(ins ssa.Instruction) {
+					ret, ok := ins.(*ssa.Return)
+					if !ok || len(ret.Results) != 2 {
+						return
+					}
+					if !isNilConst(resolveSpill(ret.Results[1])) {
+						return
+					}
+					// the quotient is the Div call's result, or the object Div stored it in (its receiver) once Div has run
+					recv := unwrap(div.Call.Args[0])
+					if !sliceHas(resolveSpill(ret.Results[0]), func(v ssa.Value) bool {
+						return v == ssa.Value(div) || (unwrap(v) == recv && instrDominates(div, ret))
+					}) {
+						bad = append(bad, "the successful return at "+c.ipos(ret)+" does not return the quotient")
+					}
+				})
+			}
 			// IsInt64 gate before Int64
-			gate := findCalls(cv, "math/big.Int.IsInt64")
-			i64 := findCalls(cv, "math/big.Int.Int64")
+			gate := c.findCallsFam(cv, "math/big.Int.IsInt64")
+			i64 := c.findCallsFam(cv, "math/big.Int.Int64")
 			if len(gate) != 1 || len(i64) != 1 || !instrDominates(gate[0], i64[0]) {
 				bad = append(bad, "Int64() is not preceded by an IsInt64() test")
 			} else {
 				// Int64 lies on the true branch of the test
 				okBr := false
-				for _, b := range cv.Blocks {
+				for _, b := range gate[0].Parent().Blocks {
 					cond, tb, fb := condEdge(b)
 					if cond != nil && sliceHas(cond, func(v ssa.Value) bool { return v == gate[0].(ssa.Value) }) {
 						// `if !num.IsInt64() { return err }` -> Int64 in the false successor
@@ -345,115 +355,7 @@ func propC07(c *Ctx, r *Report) {
 	}
 
 	// R6 call sites (decided by types, data flow and origins - not by the names of locals or parameters)
-	r.rule("C07-R6/convert-call-sites", 5, "Convert is called with the executing height and inputs of one transaction")
-	lookupOf := func(v ssa.Value) *ssa.Lookup {
-		switch x := v.(type) {
-		case *ssa.Lookup:
-			return x
-		case *ssa.Extract:
-			if lk, ok := x.Tuple.(*ssa.Lookup); ok && x.Index == 0 {
-				return lk
-			}
-		}
-		return nil
-	}
-	mapOrigins := func(m ssa.Value) string {
-		var parts []string
-		for _, l := range c.originLeaves(m, c.RSync) {
-			switch y := l.(type) {
-			case *ssa.Const:
-				parts = append(parts, "nil")
-			case *ssa.TypeAssert:
-				if call, ok := y.X.(*ssa.Call); ok {
-					parts = append(parts, shortCallee(call.Common()))
-					continue
-				}
-				parts = append(parts, "?")
-			case *ssa.Extract:
-				if call, ok := y.Tuple.(*ssa.Call); ok {
-					parts = append(parts, shortCallee(call.Common()))
-					continue
-				}
-				parts = append(parts, "?")
-			case *ssa.Call:
-				parts = append(parts, shortCallee(y.Common()))
-			case *ssa.MakeMap:
-				parts = append(parts, "make")
-			default:
-				parts = append(parts, "?")
-			}
-		}
-		sort.Strings(parts)
-		return strings.Join(dedupStrings(parts), ",")
-	}
-	refund := c.fn("conversions.Refund")
-	for _, f := range sortedFuncs(c.RSync) {
-		ordn := newOrdinals()
-		for _, ci := range findCalls(f, "conversions.Convert") {
-			a := ci.Common().Args
-			cons := fmt.Sprintf("%s -> Convert %s", fname(f), ord(ordn.next("c")))
-			var bad []string
-			if !c.isExecHeight(a[0]) {
-				bad = append(bad, "the height argument is not the executing height but "+c.describeOrigin(a[0]))
-			}
-			if f == refund {
-				// Refund converts the PEG yield back at the rates it was given
-				for i := 2; i <= 5; i++ {
-					if ownParam(a[i], f) < 0 {
-						bad = append(bad, fmt.Sprintf("rate argument %d is not one of Refund's own parameters", i+1))
-					}
-				}
-				r.check(len(bad) == 0, "C07-R6/convert-call-sites", cons, c.ipos(ci), "executing height, own parameters", strings.Join(bad, "; "))
-				continue
-			}
-			var lks [4]*ssa.Lookup
-			for i := range lks {
-				lks[i] = lookupOf(a[2+i])
-			}
-			if lks[0] == nil || lks[1] == nil || lks[2] == nil || lks[3] == nil {
-				r.viol("C07-R6/convert-call-sites", cons, c.ipos(ci), "a rate argument is not read from a rate map")
-				continue
-			}
-			if typePath(unwrapConv(a[1])) != "fat2.TypedAddressAmountTuple.Amount" {
-				// valuation of a balance (snapshot payouts): one rate map, source = rates[i] twice, destination = rates[k] twice
-				same := sameVarValue(lks[0].X, lks[1].X) && sameVarValue(lks[1].X, lks[2].X) && sameVarValue(lks[2].X, lks[3].X)
-				if !same || lks[0].Index != lks[1].Index || !sameConstOrValue(lks[2].Index, lks[3].Index) {
-					bad = append(bad, "a valuation must read source rate and average, destination rate and average pairwise from the same entry of one map")
-				}
-				r.check(len(bad) == 0, "C07-R6/convert-call-sites", cons, c.ipos(ci), "executing height; spot rates on both sides", strings.Join(bad, "; "))
-				continue
-			}
-			// transaction conversions: lookups keyed by fields of the same transaction
-			wantKeys := []string{"fat2.TypedAddressAmountTuple.Type", "fat2.TypedAddressAmountTuple.Type", "fat2.Transaction.Conversion", "fat2.Transaction.Conversion"}
-			var roots []ssa.Value
-			for i, w := range wantKeys {
-				if tp := typePath(lks[i].Index); tp != w {
-					bad = append(bad, fmt.Sprintf("argument %d is keyed by %s, expected %s", 3+i, tp, w))
-				}
-				roots = append(roots, elemRoots(lks[i].Index)...)
-			}
-			if !sameVarValue(lks[2].X, lks[0].X) || !sameVarValue(lks[3].X, lks[1].X) {
-				bad = append(bad, "source and destination are read from different maps")
-			}
-			ro, ao := mapOrigins(lks[0].X), mapOrigins(lks[1].X)
-			if strings.Contains(ro, "GetPegNetRateAverages") || strings.Contains(ro, "?") || ro == "" {
-				bad = append(bad, "the spot-rate arguments come from ["+ro+"]")
-			}
-			for _, o := range strings.Split(ao, ",") {
-				if o != "GetPegNetRateAverages" && o != "nil" {
-					bad = append(bad, "the average arguments come from ["+ao+"], expected GetPegNetRateAverages")
-				}
-			}
-			roots = append(roots, elemRoots(a[1])...)
-			for _, rt := range roots {
-				if rt != roots[0] {
-					bad = append(bad, "the amount and the rate keys are read from different transactions")
-					break
-				}
-			}
-			r.check(len(bad) == 0, "C07-R6/convert-call-sites", cons, c.ipos(ci), "Convert(executing height, tx.Input.Amount, rates/averages[tx.Input.Type], rates/averages[tx.Conversion]) of one transaction; rates from ["+ro+"], averages from ["+ao+"]", strings.Join(uniq(bad), "; "))
-		}
-	}
+	ruleConvertCallSites(c, r, "C07-R6/convert-call-sites")
 }
 
 func ruleHoldingWindow(c *Ctx, r *Report, rule string) {
@@ -740,4 +642,118 @@ func sameVarValue(a, b ssa.Value) bool {
 		return n <= 1
 	}
 	return false
+}
+
+// ruleConvertCallSites: every call of Convert on the sync path is given the executing height and the amount, rates and
+// averages of one and the same transaction (decided by types, data flow and origins - not by names).
+func ruleConvertCallSites(c *Ctx, r *Report, rule string) {
+	r.rule(rule, 5, "Convert is called with the executing height and inputs of one transaction")
+	lookupOf := func(v ssa.Value) *ssa.Lookup {
+		switch x := v.(type) {
+		case *ssa.Lookup:
+			return x
+		case *ssa.Extract:
+			if lk, ok := x.Tuple.(*ssa.Lookup); ok && x.Index == 0 {
+				return lk
+			}
+		}
+		return nil
+	}
+	mapOrigins := func(m ssa.Value) string {
+		var parts []string
+		for _, l := range c.originLeaves(m, c.RSync) {
+			switch y := l.(type) {
+			case *ssa.Const:
+				parts = append(parts, "nil")
+			case *ssa.TypeAssert:
+				if call, ok := y.X.(*ssa.Call); ok {
+					parts = append(parts, shortCallee(call.Common()))
+					continue
+				}
+				parts = append(parts, "?")
+			case *ssa.Extract:
+				if call, ok := y.Tuple.(*ssa.Call); ok {
+					parts = append(parts, shortCallee(call.Common()))
+					continue
+				}
+				parts = append(parts, "?")
+			case *ssa.Call:
+				parts = append(parts, shortCallee(y.Common()))
+			case *ssa.MakeMap:
+				parts = append(parts, "make")
+			default:
+				parts = append(parts, "?")
+			}
+		}
+		sort.Strings(parts)
+		return strings.Join(dedupStrings(parts), ",")
+	}
+	refund := c.fn("conversions.Refund")
+	for _, f := range sortedFuncs(c.RSync) {
+		ordn := newOrdinals()
+		for _, ci := range findCalls(f, "conversions.Convert") {
+			a := ci.Common().Args
+			cons := fmt.Sprintf("%s -> Convert %s", fname(f), ord(ordn.next("c")))
+			var bad []string
+			if !c.isExecHeight(a[0]) {
+				bad = append(bad, "the height argument is not the executing height but "+c.describeOrigin(a[0]))
+			}
+			if f == refund {
+				// Refund converts the PEG yield back at the rates it was given
+				for i := 2; i <= 5; i++ {
+					if ownParam(a[i], f) < 0 {
+						bad = append(bad, fmt.Sprintf("rate argument %d is not one of Refund's own parameters", i+1))
+					}
+				}
+				r.check(len(bad) == 0, rule, cons, c.ipos(ci), "executing height, own parameters", strings.Join(bad, "; "))
+				continue
+			}
+			var lks [4]*ssa.Lookup
+			for i := range lks {
+				lks[i] = lookupOf(a[2+i])
+			}
+			if lks[0] == nil || lks[1] == nil || lks[2] == nil || lks[3] == nil {
+				r.viol(rule, cons, c.ipos(ci), "a rate argument is not read from a rate map")
+				continue
+			}
+			if typePath(unwrapConv(a[1])) != "fat2.TypedAddressAmountTuple.Amount" {
+				// valuation of a balance (snapshot payouts): one rate map, source = rates[i] twice, destination = rates[k] twice
+				same := sameVarValue(lks[0].X, lks[1].X) && sameVarValue(lks[1].X, lks[2].X) && sameVarValue(lks[2].X, lks[3].X)
+				if !same || lks[0].Index != lks[1].Index || !sameConstOrValue(lks[2].Index, lks[3].Index) {
+					bad = append(bad, "a valuation must read source rate and average, destination rate and average pairwise from the same entry of one map")
+				}
+				r.check(len(bad) == 0, rule, cons, c.ipos(ci), "executing height; spot rates on both sides", strings.Join(bad, "; "))
+				continue
+			}
+			// transaction conversions: lookups keyed by fields of the same transaction
+			wantKeys := []string{"fat2.TypedAddressAmountTuple.Type", "fat2.TypedAddressAmountTuple.Type", "fat2.Transaction.Conversion", "fat2.Transaction.Conversion"}
+			var roots []ssa.Value
+			for i, w := range wantKeys {
+				if tp := typePath(lks[i].Index); tp != w {
+					bad = append(bad, fmt.Sprintf("argument %d is keyed by %s, expected %s", 3+i, tp, w))
+				}
+				roots = append(roots, elemRoots(lks[i].Index)...)
+			}
+			if !sameVarValue(lks[2].X, lks[0].X) || !sameVarValue(lks[3].X, lks[1].X) {
+				bad = append(bad, "source and destination are read from different maps")
+			}
+			ro, ao := mapOrigins(lks[0].X), mapOrigins(lks[1].X)
+			if strings.Contains(ro, "GetPegNetRateAverages") || strings.Contains(ro, "?") || ro == "" {
+				bad = append(bad, "the spot-rate arguments come from ["+ro+"]")
+			}
+			for _, o := range strings.Split(ao, ",") {
+				if o != "GetPegNetRateAverages" && o != "nil" {
+					bad = append(bad, "the average arguments come from ["+ao+"], expected GetPegNetRateAverages")
+				}
+			}
+			roots = append(roots, elemRoots(a[1])...)
+			for _, rt := range roots {
+				if rt != roots[0] {
+					bad = append(bad, "the amount and the rate keys are read from different transactions")
+					break
+				}
+			}
+			r.check(len(bad) == 0, rule, cons, c.ipos(ci), "Convert(executing height, tx.Input.Amount, rates/averages[tx.Input.Type], rates/averages[tx.Conversion]) of one transaction; rates from ["+ro+"], averages from ["+ao+"]", strings.Join(uniq(bad), "; "))
+		}
+	}
 }
